@@ -4,6 +4,7 @@ import (
 	"context"
 	"fmt"
 	"reflect"
+	"sort"
 
 	"github.com/sharedcode/sop"
 	"github.com/sharedcode/sop/btree"
@@ -24,12 +25,33 @@ func (r *nodeRepo) Get(ctx context.Context, id sop.UUID) (*btree.Node[int, strin
 func (r *nodeRepo) Fetched(id sop.UUID) {}
 func (r *nodeRepo) Remove(id sop.UUID)  { delete(r.m, id) }
 
-type noTracker struct{}
+// recTracker records what the B-tree tells its ItemActionTracker during one call: the transaction layer decides
+// from these notifications which items to lock, write, delete and replay on a merge, so they must name exactly the
+// items the call added, changed and removed.
+type recTracker struct {
+	add, upd, rem []sop.UUID
+}
 
-func (noTracker) Add(ctx context.Context, item *btree.Item[int, string]) error    { return nil }
-func (noTracker) Get(ctx context.Context, item *btree.Item[int, string]) error    { return nil }
-func (noTracker) Update(ctx context.Context, item *btree.Item[int, string]) error { return nil }
-func (noTracker) Remove(ctx context.Context, item *btree.Item[int, string]) error { return nil }
+func (r *recTracker) Add(ctx context.Context, item *btree.Item[int, string]) error {
+	r.add = append(r.add, item.ID)
+	return nil
+}
+func (r *recTracker) Get(ctx context.Context, item *btree.Item[int, string]) error { return nil }
+func (r *recTracker) Update(ctx context.Context, item *btree.Item[int, string]) error {
+	r.upd = append(r.upd, item.ID)
+	return nil
+}
+func (r *recTracker) Remove(ctx context.Context, item *btree.Item[int, string]) error {
+	r.rem = append(r.rem, item.ID)
+	return nil
+}
+
+// Trk is the set of item ids (normalised) the tracker was notified of during a call.
+type Trk struct {
+	A []int `json:"a"`
+	U []int `json:"u"`
+	R []int `json:"r"`
+}
 
 // ---------- configuration, events ----------
 
@@ -69,6 +91,7 @@ type Event struct {
 	CID    int    `json:"cid"`
 	TC     int    `json:"tc"`
 	Aff    []int  `json:"aff"`
+	Trk    *Trk   `json:"trk,omitempty"`
 	Sane   bool   `json:"sane"`
 	Unique bool   `json:"unique"`
 	Gran   int    `json:"gran"`
@@ -95,6 +118,7 @@ type Tree struct {
 	b        *btree.Btree[int, string]
 	im       inmemory.BtreeInterface[int, string]
 	repo     *nodeRepo
+	trk      *recTracker
 	ids      map[sop.UUID]int
 	uuidOf   map[int]sop.UUID
 	nextID   int
@@ -123,7 +147,8 @@ func NewTree(cfg Config, whiteBox bool, out func(Event)) *Tree {
 	}
 	si := sop.NewStoreInfo(so)
 	repo := &nodeRepo{m: map[sop.UUID]*btree.Node[int, string]{}}
-	sif := btree.StoreInterface[int, string]{NodeRepository: repo, ItemActionTracker: noTracker{}}
+	trk := &recTracker{}
+	sif := btree.StoreInterface[int, string]{NodeRepository: repo, ItemActionTracker: trk}
 	var cmp btree.ComparerFunc[int]
 	if cfg.Gran > 1 {
 		g := cfg.Gran
@@ -142,10 +167,24 @@ func NewTree(cfg Config, whiteBox bool, out func(Event)) *Tree {
 	if err != nil {
 		panic(err)
 	}
-	t := &Tree{cfg: cfg, effSlot: si.SlotLength, b: b, im: inmemory.BtreeInterface[int, string]{Btree: b}, repo: repo,
+	t := &Tree{cfg: cfg, effSlot: si.SlotLength, b: b, im: inmemory.BtreeInterface[int, string]{Btree: b}, repo: repo, trk: trk,
 		ids: map[sop.UUID]int{}, uuidOf: map[int]sop.UUID{}, whiteBox: whiteBox, out: out, sane: true}
 	t.out(Event{Ev: "Setup", Unique: cfg.Unique, Gran: cfg.Gran, Slot: si.SlotLength, LB: cfg.LB, Seq: []int{}, Aff: []int{}, R: "true", Sane: true})
 	return t
+}
+
+// normIDs: normalised ids (set, ascending) of the items named in tracker notifications (-9: never seen in the tree).
+func (t *Tree) normIDs(us []sop.UUID) []int {
+	set := map[int]bool{}
+	for _, u := range us {
+		set[t.idOf(u)] = true
+	}
+	out := []int{}
+	for id := range set {
+		out = append(out, id)
+	}
+	sort.Ints(out)
+	return out
 }
 
 func (t *Tree) idOf(u sop.UUID) int {
@@ -360,6 +399,8 @@ func (t *Tree) finish(e Event) {
 		t.sane, t.why = false, "relative order of items stored before the call changed"
 	}
 	e.Aff = diffIDs(t.last, now)
+	e.Trk = &Trk{A: t.normIDs(t.trk.add), U: t.normIDs(t.trk.upd), R: t.normIDs(t.trk.rem)}
+	t.trk.add, t.trk.upd, t.trk.rem = nil, nil, nil
 	t.last = now
 	e.Cnt = int(t.b.Count())
 	ck := t.b.GetCurrentKey()
